@@ -99,3 +99,49 @@ PROPS["C16"] = {
                     "LRU / SizeLRU / FIFOSharded satisfy cacher_laws (validated here differentially; instances proved where Props/C16.v says so)",
                     "GetBulkFromEpoch omits (with a nil error) a key whose persister read failed: 'found' is read as 'the read succeeded' (C16_bulk guard; unguarded reading refuted by witness)"],
 }
+
+PERSIST_ASSUME = ["goleveldb applies a batch atomically in record order and a cleanly closed database reopens with the same content (disk modelled as an association list)",
+                  "sequential histories only (concurrency is C11); the timer goroutine is the explicit event Tick",
+                  "memorydb's ad-hoc 'not found' errors are classified as not-found by their text"]
+PROPS["C08"] = {
+  "runs": [{"component": "persist", "labels": {1, 2, 3, 4, 5, 6}, "n_quick": 1500, "n_thorough": 6000}],
+  "anchors": ["leveldb/leveldb.go", "leveldb/leveldbSerial.go", "leveldb/batch.go", "leveldb/serialActions.go", "memorydb/memorydb.go", "sharded/shardedDB.go"],
+  "exhaustive_claim": True,
+  "rule": "exhaustive (2 keys x values {01, empty}; kinds DB and SerialDB): all sequences of 5 writes (Put k v / Remove k; first write on key a, the two keys being interchangeable) with MaxBatchSize 2, all sequences of 3 ops incl. Get with MaxBatchSize 1 and 3; memorydb: all sequences of 5 ops (thorough: 6 writes / 4 ops / 6 ops); every prefix observed. "
+          "random: 3-5 keys from an 11-key pool (empty key 1/12), values {nil, empty, 1 byte, longer}, MaxBatchSize in {1,2,3,5}, 10-50 ops, all six persister kinds, directed patterns (overwrite after flush, remove-then-put / put-then-remove in one batch, nil/empty over a flushed value, Close after every shape of last partial batch), Close/Reopen cycles incl. ops on the closed object; 1 history in 200 (thorough 1 in 40) runs with BatchDelaySeconds=1 and real sleeps for Tick. "
+          "Observables after every op: result class, Get bytes, Get/Has of every key of the alphabet. Non-trivial = hits at least one situation (flush-by-size, read-from-batch, read-from-disk, overwrite-after-flush, remove-then-put-in-batch, nil-value, empty-value, tick-flush, ...).",
+  "explanation": "Theorems in Props/C08.v quantify over every op list, every MaxBatchSize (any integer), every key/value incl. nil and empty, for DB, SerialDB, memorydb and the sharded persister; the models are tied to /repo by differential runs on real LevelDB directories.",
+  "assumptions": PERSIST_ASSUME,
+}
+PROPS["C09"] = {
+  "runs": [{"component": "persist", "labels": None, "n_quick": 1500, "n_thorough": 6000}],
+  "anchors": ["leveldb/leveldb.go", "leveldb/leveldbSerial.go", "leveldb/common.go", "sharded/shardedDB.go"],
+  "exhaustive_claim": True,
+  "rule": "exhaustive: all sequences over {Put k v, Remove k (2 keys x 2 values), Close;Reopen;RangeKeys} of length 4 (MaxBatchSize 2, first op on key a or a cycle) and 3 (MaxBatchSize 3) for DB and SerialDB, length 3 for the sharded persister over each (thorough: 5 / 4); random as C08 with kinds DB, SerialDB, sharded over them and twice the cycle weight. After Reopen the monitor compares Get/Has of every key and RangeKeys with the harness-side map of acknowledged writes; RangeKeys on an open persister is compared with the harness-side flushed map.",
+  "explanation": "Props/C09.v: Close+reopen presents exactly abs of the state before Close (Get, Has, RangeKeys), for histories with any number of cycles at arbitrary points; RangeKeys presents the flushed map without duplicates.",
+  "assumptions": PERSIST_ASSUME + ["C09 is stated for persisters with a path (memorydb excluded)",
+                                   "DB.Put/Remove on a CLOSED leveldb.DB return nil while the batch is not full and the write is dropped (outside the property: only writes acknowledged before Close count); modelled faithfully, witness theorem in Props/C09.v"],
+}
+PROPS["C19"]["runs"].append({"component": "persist", "labels": None, "n_quick": 600, "n_thorough": 3000})
+PROPS["C19"]["coq_props"] = ["C19", "C19b"]
+PROPS["C19"]["rule"] += " persist: sharded persister (2-8 shards, real shard id provider) over DB / SerialDB / memorydb; exhaustive: all 5-op sequences over 2 keys in different shards (memorydb shards), 4-op with 3 shards, 3 writes over LevelDB shards"
+
+PROPS["C20"] = {
+    "runs": [{"component": "fifo", "labels": None, "n_quick": 2000, "n_thorough": 20000}],
+    "anchors": ["fifocache/fifocacheSharded.go"],
+    "exhaustive_claim": True,
+    "rule": "random: (S,N) in {(2,1),(3,1),(5,1),(4,2),(7,3),(10,4)}, 6-12 keys from a pool of 23 (one-byte keys, prefix pairs, a NUL, two 13-byte keys) re-drawn until every shard gets >= 2 keys, "
+            "20-60 ops Put 38%/HasOrAdd 15%/Get 7/Has 4/Peek 4/Remove 15/Clear 4/Register 7/Unregister 6 over 5 values and 3 handler ids, 3/4 of the ops on a hot subset; "
+            "1 history in 20 is hostile (one alphabet key replaced by the empty key). exhaustive (one shard, S in {2,3}, 3 keys, up to key renaming, all prefixes observed): "
+            "quick = all length-5 sequences of Put/HasOrAdd/Remove + all length-4 of Put/HasOrAdd/Remove/Get (27 094); thorough = length 6 resp. 5 (261 844). "
+            "non-trivial = hits one of: eviction, overwrite(-evicts), ring-wrap-around, remove-present, remove-then-readd, clear-nonempty, hasoradd-refused, full, "
+            "multi-shard-eviction, handler-fired, two-handlers-fired, unregister, reregister-same-id, get-hit, empty-key(-entry-alive).",
+    "explanation": "Props/C20.v: 14 theorems over all histories, all S >= 2N, N >= 1, all non-empty keys, on a line-by-line model of concurrent-map v0.1.4's shard "
+                   "(ring + map) and of fifocacheSharded.go; tied to the code by the differential run on every labelled observable after every op "
+                   "(exact Keys() order with one shard). Monitors evaluate the seven clauses of the property text on the implementation.",
+    "assumptions": ["keys are non-empty (empty key = known finding F12, witnessed in Coq by C20_empty_key_refuted and by corpus/C20/f12-empty-key.hist)",
+                    "sequential histories only (concurrency is C14)", "S >= 2N, N >= 1 (the constructor panics on N = 0; a shard of size 1 holds nothing)",
+                    "Keys() order between shards is unspecified (goroutines): compared sorted unless N = 1",
+                    "values are byte strings; nil handler registration (logged and ignored by the code) is not generated",
+                    "the dependency source is github.com/multiversx/concurrent-map v0.1.4 in the module cache, not under /repo: the anchors' fingerprint does not cover it"],
+}
